@@ -1508,7 +1508,7 @@ func (g *c14Gen) generate() []c14Case {
 	}
 
 	// (a) round trip of well-formed messages, all kinds x pvers; near-well-formed variants
-	perKind := 6
+	perKind := 16
 	if thorough {
 		perKind = 60
 	}
@@ -1607,7 +1607,7 @@ func (g *c14Gen) generate() []c14Case {
 		}
 	}
 	// raw random byte streams, and random payloads for every command at every pver
-	nraw := 300
+	nraw := 1000
 	if thorough {
 		nraw = 5000
 	}
